@@ -7,7 +7,6 @@ From Ructe Require Import Nom NomFacts.
 Local Open Scope list_scope.
 
 Definition nf {A} (k : nat) (p : parser A) := forall i, List.length i <= k -> p i <> Abort AFuel.
-Definition strict {A} (p : parser A) := forall i a r, p i = Ok a r -> List.length r < List.length i.
 
 Lemma nf_mono {A} k k' (p : parser A) : k' <= k -> nf k p -> nf k' p.
 Proof. intros L H i Hi. apply H. lia. Qed.
@@ -34,10 +33,10 @@ Proof.
   - intros [= ->]. now apply (Hp i Hi).
 Qed.
 Lemma nf_bind_strict {A B} k (p : parser A) (f : A -> parser B) :
-  nf k p -> strict p -> (forall a, nf (k - 1) (f a)) -> nf k (bind p f).
+  nf k p -> strict p -> (0 < k -> forall a, nf (k - 1) (f a)) -> nf k (bind p f).
 Proof.
   intros Hp Sp Hf i Hi. unfold bind. destruct (p i) as [a r|e|a] eqn:E; [|discriminate|].
-  - apply Hf. pose proof (Sp _ _ _ E). lia.
+  - pose proof (Sp _ _ _ E). apply Hf; lia.
   - intros [= ->]. now apply (Hp i Hi).
 Qed.
 Lemma nf_pmap {A B} k (g : A -> B) p : nf k p -> nf k (pmap g p).
@@ -48,16 +47,23 @@ Lemma nf_pair {A B} k (p : parser A) (q : parser B) : nf k p -> sfx p -> nf k q 
 Proof. intros. unfold pair. apply nf_bind; try assumption. intros a. now apply nf_pmap. Qed.
 Lemma nf_preceded {A B} k (p : parser A) (q : parser B) : nf k p -> sfx p -> nf k q -> nf k (preceded p q).
 Proof. intros. unfold preceded. now apply nf_bind. Qed.
-Lemma nf_preceded_strict {A B} k (p : parser A) (q : parser B) : nf k p -> strict p -> nf (k - 1) q -> nf k (preceded p q).
-Proof. intros. unfold preceded. now apply nf_bind_strict. Qed.
+Lemma nf_preceded_strict {A B} k (p : parser A) (q : parser B) : nf k p -> strict p -> (0 < k -> nf (k - 1) q) -> nf k (preceded p q).
+Proof. intros. unfold preceded. apply nf_bind_strict; auto. Qed.
+Lemma nf_pair_strict {A B} k (p : parser A) (q : parser B) : nf k p -> strict p -> (0 < k -> nf (k - 1) q) -> nf k (pair p q).
+Proof. intros. unfold pair. apply nf_bind_strict; auto. intros. apply nf_pmap. auto. Qed.
+Lemma nf_terminated_strict {A B} k (p : parser A) (q : parser B) : nf k p -> strict p -> (0 < k -> nf (k - 1) q) -> nf k (terminated p q).
+Proof. intros. unfold terminated. apply nf_bind_strict; auto. intros. apply nf_pmap. auto. Qed.
 Lemma nf_terminated {A B} k (p : parser A) (q : parser B) : nf k p -> sfx p -> nf k q -> nf k (terminated p q).
 Proof. intros. unfold terminated. apply nf_bind; try assumption. intros a. now apply nf_pmap. Qed.
 Lemma nf_delimited {A B C} k (p : parser A) (q : parser B) (r : parser C) :
   nf k p -> sfx p -> nf k q -> sfx q -> nf k r -> nf k (delimited p q r).
 Proof. intros. unfold delimited. apply nf_preceded; try assumption. now apply nf_terminated. Qed.
 Lemma nf_delimited_strict {A B C} k (p : parser A) (q : parser B) (r : parser C) :
-  nf k p -> strict p -> nf (k - 1) q -> sfx q -> nf (k - 1) r -> nf k (delimited p q r).
-Proof. intros. unfold delimited. apply nf_preceded_strict; try assumption. now apply nf_terminated. Qed.
+  nf k p -> strict p -> (0 < k -> nf (k - 1) q) -> sfx q -> nf k r -> nf k (delimited p q r).
+Proof.
+  intros Hp Sp Hq Sq Hr. unfold delimited. apply nf_preceded_strict; try assumption.
+  intros K. apply nf_terminated; auto. eapply nf_mono; [|exact Hr]. lia.
+Qed.
 
 (* choice etc. *)
 Lemma nf_alt' {A} k (ps : list (parser A)) : Forall (nf k) ps -> forall last, nf k (alt' ps last).
